@@ -110,10 +110,18 @@ def validate_sample(wd, sample, traces):
         evs = traces.get(sc["id"], [])
         if any(e["ev"] in ("panic", "race") for e in evs):
             return None
-        return cb.validate_traces(sub, "g", {sc["id"]: evs}, cfg=cb.scenario_to_config(sc))
+        # one successor of a state in which many goroutines can move at once may take TLC minutes (the closure of a big step
+        # branches at every select): a sampled validation is given up after two minutes and counted, it decides nothing
+        try:
+            return cb.validate_traces(sub, "g", {sc["id"]: evs}, cfg=cb.scenario_to_config(sc), timeout=120, soft=True)
+        except cb.SoftTimeout:
+            return "timeout"
     with ThreadPoolExecutor(max_workers=core.NCPU) as ex:
         for sc, r in zip(sample, ex.map(one, sample)):
             if r is None:
+                continue
+            if r == "timeout":
+                res["given_up"] = res.get("given_up", 0) + 1
                 continue
             acc, rej, st, tr, n = r
             res["accepted"] += len(acc)
@@ -184,7 +192,7 @@ def sched_part(prop, tier, seed, extra_cov=None, extra_assume=None, tlc_runs=())
                        "scheduler; distinct = distinct sequences of API calls and frames among traces that drew a bar or ended "
                        "by error/cancel/hang" % ",".join(f for f, _ in counts),
                "exhaustive": False, "monitor_events": nev, "families": dict(counts),
-               "gate_traces_accepted": gate["accepted"], "gate_traces_rejected": gate["rejected"], "gate_steps": gate["steps"],
+               "gate_traces_accepted": gate["accepted"], "gate_traces_rejected": gate["rejected"], "gate_traces_given_up_after_2_min": gate.get("given_up", 0), "gate_steps": gate["steps"],
                "drift_traces": gate["drift"][:10],
                "finding_traces_reproduced_by_the_specification": explained["accepted"], "finding_traces_not_reproduced": sorted(unexplained)[:10],
                "known_findings": {k: len({b["tr"] for b in v}) for k, v in known.items()}, "model_runs": model,
